@@ -466,6 +466,18 @@ theorem hitsound_copy_perm (σs σt σs' σt' : List Nat) (src tgt src' tgt' : C
     rw [key σs σt src tgt h hns (hvS σs σt src tgt h hv), key σs' σt' src' tgt' h' hns' (hvS σs' σt' src' tgt' h' hv')]
     exact (hS.filter _).countP_eq _
 
+/-- non-vacuity: two claps and a named sample at time 0 in two row orders, one target note -/
+def exSrcA : Chart := ⟨[⟨0, 0, none, 2, 0, 0, 0, 20, []⟩, ⟨0, 1, none, 0, 0, 0, 0, 20, [97]⟩, ⟨0, 2, none, 2, 0, 0, 0, 30, []⟩], [], []⟩
+def exSrcB : Chart := ⟨[⟨0, 2, none, 2, 0, 0, 0, 30, []⟩, ⟨0, 1, none, 0, 0, 0, 0, 20, [97]⟩, ⟨0, 0, none, 2, 0, 0, 0, 20, []⟩], [], []⟩
+def exTgt1 : Chart := ⟨[⟨0, 0, none, 0, 0, 0, 0, 0, []⟩], [], []⟩
+
+example : PermsOk [0, 1, 2] [0] exSrcA exTgt1 ∧ PermsOk [2, 0, 1] [0] exSrcB exTgt1 ∧ HsChartPerm exSrcA exSrcB ∧
+    HsChartPerm exTgt1 exTgt1 ∧ holdsHaveLength exTgt1 = true ∧ noSep exSrcA = true ∧
+    (∀ n ∈ notesOf exSrcA, 0 ≤ n.volume) := by
+  refine ⟨⟨List.Perm.refl _, by decide, List.Perm.refl _, by decide⟩,
+    ⟨by unfold Timing.IsPerm; decide, by decide, List.Perm.refl _, by decide⟩, ⟨by decide, List.Perm.refl _⟩,
+    ⟨List.Perm.refl _, List.Perm.refl _⟩, by decide, by decide, by decide⟩
+
 /-- D40 (found as N15a, since repaired), the mechanism: on an object-dtype column pandas evaluates `hitsound_set & HS_CLAP` as a
 logical and of truth values, and `True == 2` / `False == 2` are both false — no bit is ever found -/
 def hasBitObject (hs m : Nat) : Bool := (if (hs ≠ 0 ∧ m ≠ 0) then 1 else 0) == m
